@@ -45,7 +45,14 @@ type execSpec struct {
 	ReqURL     string      `json:"request_url,omitempty"`
 	ReqHeaders [][2]string `json:"request_headers,omitempty"`
 	ReqBody    string      `json:"request_body,omitempty"`
+	// Repeat > 1: the execution is performed that many times in a row (a long-running server
+	// sees the same request hundreds of times)
+	Repeat int `json:"repeat,omitempty"`
 }
+
+// one ZnHttpHandler per interpreter object, as in a server: requests of a history that reuse
+// the interpreter also go through the same handler
+var c16Handlers = map[*exec.Interpreter]*server.ZnHttpHandler{}
 
 func runSpec(w *zsim.World, in *exec.Interpreter, sp *execSpec) ExecResult {
 	d := zsim.NewDisk(w) // every execution sees its own disk content
@@ -70,7 +77,11 @@ func runSpec(w *zsim.World, in *exec.Interpreter, sp *execSpec) ExecResult {
 	}
 	if sp.Mode == "http" {
 		d.Put("/srv/entry.zn", []byte(sp.Main))
-		h := server.NewZnHttpHandler(in, "/srv/entry.zn")
+		h := c16Handlers[in]
+		if h == nil {
+			h = server.NewZnHttpHandler(in, "/srv/entry.zn")
+			c16Handlers[in] = h
+		}
 		req := httptest.NewRequest("POST", sp.ReqURL, strings.NewReader(sp.ReqBody))
 		for _, kv := range sp.ReqHeaders {
 			req.Header.Add(kv[0], kv[1])
@@ -106,8 +117,10 @@ func refMain() {
 		if i < len(hs.Shared) && !hs.Shared[i] {
 			in = newInterp(probeLib())
 		}
-		w.Out.Reset()
-		res = runSpec(w, in, sp)
+		for r := 0; r < sp.Repeat || r == 0; r++ {
+			w.Out.Reset()
+			res = runSpec(w, in, sp)
+		}
 	}
 	w.Leave()
 	json.NewEncoder(os.Stdout).Encode(res)
@@ -327,6 +340,8 @@ func c16Related(t *zsim.Tape, p *execSpec) *execSpec {
 		return v([]uint32{6, 2, 3}[t.Draw(3)])
 	case strings.HasPrefix(id, "http-response-patched:"):
 		return v(14, map[string]uint32{"text": 0, "json": 1, "number": 2}[strings.TrimPrefix(id, "http-response-patched:")])
+	case strings.HasPrefix(id, "http-program-crashes-host/"):
+		return v(13, uint32(t.Draw(4)))
 	case strings.HasPrefix(id, "http-request-patched/"):
 		shape := uint32(id[len(id)-1] - '0')
 		if t.Draw(2) == 1 {
@@ -346,7 +361,13 @@ func c16Related(t *zsim.Tape, p *execSpec) *execSpec {
 func c16Polluter(t *zsim.Tape) *execSpec {
 	gs := c16Globals()
 	guard := "\n\n拦截异常：\n\t输出“挡住”\n"
-	switch t.Draw(20) {
+	switch t.Draw(21) {
+	case 20: // a request whose program takes the interpreter down (net/http recovers), once or hundreds of times
+		sp := c16HTTPSpec("http-request-patched", 0, true)
+		sp.Repeat = []int{1, 3, 127, 128, 129, 300}[t.Draw(6)]
+		sp.ID = fmt.Sprintf("http-program-crashes-host/x%d", sp.Repeat)
+		sp.Main = "输入当前请求\n令A = 【1，2】\n以A（新增：9、-10）\n输出“污染者结束”\n"
+		return sp
 	case 19: // an object of a real library class whose parts are changed in place
 		return c16Response(t.Draw(3), true)
 	case 18: // an entry program that changes the parts of ITS OWN request object in place
@@ -513,6 +534,12 @@ func c16EnumPolluters() []*execSpec {
 	}
 	for body := 0; body < 3; body++ {
 		out = append(out, c16Response(body, true))
+	}
+	for _, n := range []int{1, 129, 300} {
+		sp := c16HTTPSpec("http-request-patched", 0, true)
+		sp.Repeat, sp.ID = n, fmt.Sprintf("http-program-crashes-host/x%d", n)
+		sp.Main = "输入当前请求\n令A = 【1，2】\n以A（新增：9、-10）\n输出“污染者结束”\n"
+		out = append(out, sp)
 	}
 	for class := 0; class < 3; class++ {
 		doc, size := c16Doc(class)
